@@ -91,6 +91,7 @@ def dropChan (tp : Topic) (c : String) : Topic :=
 inductive HKind
   | startup                                   -- apps/nsqd Start: PersistMetadata after LoadMetadata
   | del                                       -- (fix) persist after the map unlink of a deletion
+  | exit                                      -- NSQD.Exit: PersistMetadata under n.Lock before the topics are closed
   | pause (t : String) (c : Option String) (flag : Bool)   -- doPauseTopic / doPauseChannel
 deriving DecidableEq, Repr
 
@@ -130,6 +131,7 @@ structure Sys (β : Type) where
   persist : Option Persist
   fs : FS β
   lastStart : StartRes
+  exiting : Bool               -- NSQD.Exit has started (listeners closed); the flock is held until `exitEnd`
   -- ghost history
   taken : List Doc             -- every completed snapshot, in order
   renamed : List Doc           -- every snapshot renamed onto nsqd.dat, in order
@@ -138,7 +140,7 @@ structure Sys (β : Type) where
 
 def Sys.init {β : Type} : Sys β :=
   { alive := false, mem := [], pending := 0, handlers := [], persist := none, fs := FS.empty,
-    lastStart := .never, taken := [], renamed := [], hist := [], acks := [] }
+    lastStart := .never, exiting := false, taken := [], renamed := [], hist := [], acks := [] }
 
 /-! ## Steps -/
 
@@ -167,6 +169,8 @@ deriving Repr
 
 inductive Step
   | start | kill
+  | exitBegin          -- NSQD.Exit: listeners closed, then n.Lock(); PersistMetadata(); topics closed; …
+  | exitEnd            -- … n.waitGroup.Wait(); n.dl.Unlock(): only now is the data path free (the process is gone)
   | mem (ms : MemStep)
   | persist (ps : PStep)
 deriving Repr
@@ -244,7 +248,7 @@ def memEffect (fix : Bool) (stamp : Nat) (m : Mem) : MemStep → Option (Mem × 
 /-- `New` took the flock; `LoadMetadata` produced `m`; `Start` will persist before `Main` -/
 def boot {β : Type} (s : Sys β) (m : Mem) : Sys β :=
   { s with alive := true, mem := m, pending := 0, handlers := [⟨.startup, s.hist.length⟩],
-           persist := none, lastStart := .ok, hist := s.hist ++ [m] }
+           persist := none, lastStart := .ok, exiting := false, hist := s.hist ++ [m] }
 
 def pstep {β : Type} (cd : Codec β) (s : Sys β) : PStep → Option (Sys β)
   | .beginNotify =>
@@ -320,7 +324,16 @@ def step {β : Type} (cd : Codec β) (fix : Bool) (s : Sys β) : Step → Option
         | some d => some (boot s (loadDoc d))
         | none => some { s with lastStart := .badFile }            -- "failed to parse metadata": exit 1
   | .kill =>
-    if s.alive then some { s with alive := false, mem := [], pending := 0, handlers := [], persist := none }
+    if s.alive then some { s with alive := false, mem := [], pending := 0, handlers := [], persist := none,
+                                  exiting := false }
+    else none
+  | .exitBegin =>
+    if !s.alive || s.exiting then none
+    else some { s with exiting := true, handlers := s.handlers ++ [⟨.exit, s.hist.length - 1⟩] }
+  | .exitEnd =>
+    -- the flock is released at the very end of Exit: after its own persist has been renamed and returned
+    if s.alive && s.exiting && s.persist.isNone && s.handlers.all (fun h => h.kind != .exit) then
+      some { s with alive := false, mem := [], pending := 0, handlers := [], persist := none, exiting := false }
     else none
   | .mem ms =>
     if !s.alive then none
